@@ -1304,6 +1304,18 @@ func ReachableAssuming(fn *ssa.Function, v ssa.Value, k constant.Value, target s
 	}
 	key := ExprKey(Strip(v))
 	assume := func(x ssa.Value) (bool, bool) {
+		// membership in a literal list of constants: slices.Contains([]T{k1, k2, ...}, v)
+		if el, set, isSet := ConstSetContains(x); isSet {
+			o := Strip(el)
+			if SameValue(o, Strip(v)) || (key != "" && ExprKey(o) == key) {
+				for _, m := range set {
+					if constant.Compare(k, token.EQL, m) {
+						return true, true
+					}
+				}
+				return false, true
+			}
+		}
 		bo, ok := x.(*ssa.BinOp)
 		if !ok || (bo.Op != token.EQL && bo.Op != token.NEQ) {
 			return false, false
@@ -1325,6 +1337,58 @@ func ReachableAssuming(fn *ssa.Function, v ssa.Value, k constant.Value, target s
 		return false, false
 	}
 	return FlowAssume(fn.Blocks[0], assume).Reaches(target)
+}
+
+// ConstSetContains recognises `slices.Contains(list, el)` where list is a slice literal whose elements are all
+// constants: it returns the element operand and the constants.
+func ConstSetContains(x ssa.Value) (el ssa.Value, set []constant.Value, ok bool) {
+	call, isCall := x.(*ssa.Call)
+	if !isCall || len(call.Call.Args) != 2 {
+		return nil, nil, false
+	}
+	cal := call.Call.StaticCallee()
+	if cal == nil {
+		return nil, nil, false
+	}
+	name := cal.Name()
+	pk := cal.Pkg
+	if o := cal.Origin(); o != nil {
+		name, pk = o.Name(), o.Pkg
+	}
+	if pk == nil || pk.Pkg.Path() != "slices" || name != "Contains" {
+		return nil, nil, false
+	}
+	sl, isSl := Strip(call.Call.Args[0]).(*ssa.Slice)
+	if !isSl {
+		return nil, nil, false
+	}
+	al, isAl := sl.X.(*ssa.Alloc)
+	if !isAl || al.Referrers() == nil {
+		return nil, nil, false
+	}
+	for _, r := range *al.Referrers() {
+		switch y := r.(type) {
+		case *ssa.IndexAddr:
+			if y.Referrers() == nil {
+				return nil, nil, false
+			}
+			for _, rr := range *y.Referrers() {
+				st, isSt := rr.(*ssa.Store)
+				if !isSt {
+					return nil, nil, false
+				}
+				k, isK := st.Val.(*ssa.Const)
+				if !isK || k.Value == nil {
+					return nil, nil, false
+				}
+				set = append(set, k.Value)
+			}
+		case *ssa.Slice:
+		default:
+			return nil, nil, false
+		}
+	}
+	return call.Call.Args[1], set, len(set) > 0
 }
 
 // DerivesFrom reports whether target is among the values root is computed from, walking backwards
